@@ -1228,7 +1228,7 @@ func (e *Enc) evalCall(n *SCall, ctx *SpecCtx) (SV, error) {
 		if err != nil {
 			return SV{}, err
 		}
-		tt := n.Args[1].String()
+		tt := ptrTypeArg(n.Args[1].String())
 		_, t := e.specSort(tt, ctx.pkg, ctx.pos)
 		if t == nil {
 			return SV{}, fmt.Errorf("typeis: unknown type %s", tt)
@@ -1239,7 +1239,7 @@ func (e *Enc) evalCall(n *SCall, ctx *SpecCtx) (SV, error) {
 		if err != nil {
 			return SV{}, err
 		}
-		tt := n.Args[1].String()
+		tt := ptrTypeArg(n.Args[1].String())
 		_, t := e.specSort(tt, ctx.pkg, ctx.pos)
 		if t == nil {
 			return SV{}, fmt.Errorf("unbox: unknown type %s", tt)
@@ -1898,4 +1898,13 @@ func (e *Enc) checkFrame(fr *Frame, fc *FuncContract, entry, exit *St, reach str
 		c := e.comps[name]
 		e.addObl("frame", c.Name, reach, goals[name], fr.fn.Pos(), "only declared locations of "+c.Fam+" change")
 	}
+}
+
+// ptrTypeArg: typeis(x, ptr(pkg.T)) / unbox(x, ptr(pkg.T)) name the pointer type *pkg.T (the
+// expression grammar has no unary *).
+func ptrTypeArg(tt string) string {
+	if strings.HasPrefix(tt, "ptr(") && strings.HasSuffix(tt, ")") {
+		return "*" + tt[4:len(tt)-1]
+	}
+	return tt
 }
